@@ -227,10 +227,14 @@ func (r *Reader) NextFrame() (hdr ws.Header, err error) {
 			if err == nil {
 				// Ensure that src is empty.
 				_, err = io.Copy(ioutil.Discard, &r.raw)
-				if err == nil && r.raw.N != 0 {
-					// See the note in Discard().
-					err = io.ErrUnexpectedEOF
-				}
+			}
+			if (err == nil || err == io.EOF) && r.raw.N != 0 {
+				// The source has ended inside the control frame payload,
+				// either while the callback was reading it (io.EOF) or while
+				// draining it here (see the note in Discard()). We are in the
+				// middle of a fragmented message, so this must never look
+				// like a clean end of stream.
+				err = io.ErrUnexpectedEOF
 			}
 			return hdr, err
 		}
